@@ -5,6 +5,11 @@ ROOT = os.path.dirname(os.path.dirname(os.path.abspath(__file__)))
 
 TECH = "deterministic simulation with fault injection: "
 CHECKS = {
+ "C19": dict(
+   text="Seeded speaker/MIC toggle schedules (observed by single-stepping) under seeded sample rates (8-384 kHz), volumes, device enables and host drain policies (always / every j-th frame / never, multi-frame host calls): exactly floor(rate/50) samples per drained frame, every sample equals a beeper level in force within one sample of its frame time, all samples finite and within the volume bound (also with a randomly programmed AY), queue below two frames' worth when not drained. Sampling, not proof.",
+   note="Beeper factors (0.5 speaker, 0.1 MIC, volume/200) are taken from the mixer's documented constants; the per-sample clause is checked with the AY disabled; AY signal content is C18's.",
+   technique=TECH+"seeded port-write times, sample rates and host drain schedules on the real machine, PCM checked against a reference level time line",
+   ref="5 (C19)"),
  "C08": dict(
    text="Seeded screen contents written through every path the property lists (CPU LDIR via 0x4000 and via 0xC000 with bank 5/7 paged, pokes, SCR / SNA / SZX load with chunked assets, tape fast-load, raw bus writes), 128K screen-select toggles, then quiet frames compared pixel-exact with RefScreen; FLASH polarity run-lengths over 50+ frames; single CPU writes scheduled at a seeded T at least two lines before/after the beam position must appear in the current/next frame. Sampling, not proof.",
    note="Oracle input is the actual content of the displayed RAM bank (hook); loader correctness is C14's; flash phase origin is not assumed.",
